@@ -1,8 +1,126 @@
-import GixModel.Model.C39Core
-import GixModel.Spec.C39
-namespace GixModel.Props.C39
-open GixModel GixModel.C39
+import GixModel.Lemmas.C39Pipeline
+/-
+C39 — Pathspecs select the same paths as git.  PROPERTY THEOREMS ONLY.
 
-theorem placeholder : (1 : Nat) = 1 := rfl
+`C39.parseSpec` / `normalize` / `fromSpecs` / `select` model `gix_pathspec::parse`, `Pattern::normalize`
+(empty prefix), `Search::from_specs` and `Search::pattern_matching_relative_path(..).map_or(false,
+|m| !m.is_excluded())`; `Spec.C39.gitSelect` is the transcription of git's pathspec.c / dir.c as
+`git ls-files -- <specs>` uses them, validated against the git binary by the harness. The wildcard
+matcher `env.wm` and the attribute lookup `env.attr` are parameters: every theorem holds for any
+attribute lookup and for any matcher with the two stated properties of `wildmatch`
+(`WmPrefix`: the text before the first wildcard must match literally; `WmSlash`: a pattern ending in a
+literal `/` only matches values ending in `/`) — both are checked on the real `gix_glob::wildmatch` by
+the harness for every verdict it hands to the model.
+-/
+namespace GixModel.Props.C39
+open GixModel GixModel.C38 GixModel.C39 GixModel.Spec.C39 GixModel.Lemmas.C39
+
+/-- **prefix_shortcut_sound**: rejecting every path that does not start with the common prefix of the
+positive patterns before looking at any pattern (the shortcut of `pattern_matching_relative_path`)
+never changes the verdict — for every search `Search::from_specs` can build (any number of patterns,
+excludes, icase, literal, glob, attributes), every non-empty path, directory or not. -/
+theorem prefix_shortcut_sound (env : C39.Env) (hwm : WmPrefix env.wm) (specs : List PSpec) (s : Search)
+    (hs : fromSpecs specs = some s) (path : Bytes) (hp : path ≠ []) (isDir : Bool) :
+    select env s path isDir = selectNoShortcut env s path isDir :=
+  shortcut_sound env hwm s (fromSpecs_wellFormed specs s hs) path hp isDir
+
+-- non-vacuity: two positive patterns `a/x*` and `a/y` (common prefix `a/`) and an exclude; `WmPrefix` holds
+-- for a matcher that insists on the literal prefix
+example :
+    let mk (p : Bytes) (ex : Bool) : PSpec := { PSpec.default with path := p, exclude := ex }
+    (fromSpecs [mk [97, 47, 120, 42] false, mk [98] true, mk [97, 47, 121] false]).map (fun s => (s.commonPrefixLen, s.commonPrefix))
+      = some (2, [97, 47]) := by decide
+
+example : WmPrefix (fun text value _ _ => match firstWildcardPos text with
+    | some k => value.take k == text.take k && decide (k ≤ value.length)
+    | none => text == value) := by
+  intro text value pn k hk h
+  simp only [hk, Bool.and_eq_true, beq_iff_eq, decide_eq_true_eq] at h
+  exact h
+
+/-- **select_eq_git** (on normalised specs): the first match in exclude-first order — verbatim /
+directory-prefix match, wildcard match with verbatim fallback, MUST_BE_DIR, icase, the attribute filter,
+"only excludes ⇒ everything" — selects an index path exactly when git's `match_pathspec` over the
+corresponding items does (`itemOf`: the item keeps the trailing slash gitoxide records as MUST_BE_DIR). -/
+theorem select_eq_git (env : C39.Env) (hsl : WmSlash env.wm) (ns : List PSpec) (hok : ∀ s ∈ ns, SpecOk s)
+    (name : Bytes) (hn : NameOk name) :
+    selectNoShortcut env (searchOf ns) name false = matchPathspec env (withImplicit (ns.map itemOf)) name :=
+  select_items env hsl ns hok name hn
+
+/-- the hypothesis of `select_eq_git` is what `Pattern::normalize` guarantees -/
+theorem normalized_spec_ok (s n : PSpec) (h : normalize s = some n) : SpecOk n := normalize_specOk s n h
+
+/-- The pathspec strings on which the two PARSERS are proved to agree: no magic, short magic (not
+followed by `(`: a known finding), or long magic made of flag keywords and empty elements — each with a
+path part that needs no normalisation. -/
+inductive InDomain : Bytes → Prop
+  | colon : InDomain [58]
+  | plain (e : Bytes) (hne : e ≠ []) (hh : e.head? ≠ some 58) (hc : cleanPath e = true) : InDomain e
+  | short (rest : Bytes) (hne : rest ≠ []) (hp : rest.head? ≠ some 40)
+      (hdom : ∀ t e r, parseShort rest false false = some (t, e, r) → r.head? ≠ some 40 ∧ cleanPath r = true) :
+      InDomain (58 :: rest)
+  | long (ws : List Bytes) (hne : ws ≠ []) (hws : ∀ w ∈ ws, w ∈ flagWords) (path : Bytes) (hc : cleanPath path = true) :
+      InDomain (58 :: 40 :: (joinComma ws ++ 41 :: path))
+
+/-- **parse_eq_git** (partial: the magic grammar without `attr:` values, see `C39_parse_full`): on
+`InDomain`, git's `init_pathspec_item` builds exactly the item of the spec gitoxide parses and
+normalises — same magic bits, same match string — or both refuse the pathspec (`:(glob,literal)x`). -/
+theorem parse_eq_git_partial (e : Bytes) (h : InDomain e) :
+    initItem e = ((parseSpec e).bind normalize).map itemOf := by
+  cases h with
+  | colon => rfl
+  | plain _ hne hh hc => exact parse_plain e hne hh hc
+  | short rest hne hp hdom => exact parse_short rest hne hp hdom
+  | long ws hne hws path hc => exact parse_long_flags ws hne hws path hc
+
+-- non-vacuity: `:(top,,icase,glob)a/*/`, `:!/src/`, `README`, and a refused one
+example : InDomain [58, 40, 116, 111, 112, 44, 44, 105, 99, 97, 115, 101, 44, 103, 108, 111, 98, 41, 97, 47, 42, 47] :=
+  InDomain.long [[116, 111, 112], [], [105, 99, 97, 115, 101], [103, 108, 111, 98]] (by simp)
+    (by decide) [97, 47, 42, 47] (by decide)
+
+example : (parseSpec [58, 40, 116, 111, 112, 44, 44, 105, 99, 97, 115, 101, 44, 103, 108, 111, 98, 41, 97, 47, 42, 47]).map
+    (fun s => (s.sigBits, s.path)) = some (11, [97, 47, 42]) := by decide
+
+example : InDomain [58, 33, 47, 115, 114, 99, 47] :=
+  InDomain.short [33, 47, 115, 114, 99, 47] (by simp) (by simp) (by
+    intro t e r h
+    have : parseShort [33, 47, 115, 114, 99, 47] false false = some (true, true, [115, 114, 99, 47]) := by decide
+    rw [this] at h
+    injection h with h; injection h with _ h; injection h with _ h; subst h
+    exact ⟨by simp, by decide⟩)
+
+example : initItem [58, 40, 103, 108, 111, 98, 44, 108, 105, 116, 101, 114, 97, 108, 41, 120] = none := by decide
+
+/-- The full statement about the parsers (NOT proved): for every pathspec string outside the two known
+findings (short magic followed by `(`, the internal `prefix:` keyword) — in particular with `attr:`
+elements, escaped commas and path parts that need normalisation. -/
+def C39_parse_full : Prop :=
+  ∀ e : Bytes, (∀ b ∈ e, b ≠ 0) → initItem e = ((parseSpec e).bind normalize).map itemOf
+
+/-- **from the strings to the selected paths**: for every list of pathspecs on which the parsers agree
+(`InDomain` suffices), every attribute lookup and every list of index paths, gitoxide selects exactly
+the paths `git ls-files -- <specs>` lists, and refuses the list exactly when git does. -/
+theorem select_eq_git_strings (env : C39.Env) (hpre : WmPrefix env.wm) (hsl : WmSlash env.wm) (elems names : List Bytes)
+    (hp : ∀ e ∈ elems, InDomain e) (hn : ∀ n ∈ names, NameOk n) :
+    gixSelect env elems names = gitSelect env elems names :=
+  select_pipeline env hpre hsl elems names (fun e he => parse_eq_git_partial e (hp e he)) hn
+
+/-- the same for any pathspecs on which the parsers agree -/
+theorem select_eq_git_of_parse (env : C39.Env) (hpre : WmPrefix env.wm) (hsl : WmSlash env.wm) (elems names : List Bytes)
+    (hp : ∀ e ∈ elems, ParseAgrees e) (hn : ∀ n ∈ names, NameOk n) :
+    gixSelect env elems names = gitSelect env elems names :=
+  select_pipeline env hpre hsl elems names hp hn
+
+/-- The full statement of the property (follows from `C39_parse_full`, `WmPrefix` and `WmSlash`). -/
+def C39_full : Prop :=
+  ∀ (env : C39.Env) (elems names : List Bytes), WmPrefix env.wm → WmSlash env.wm →
+    (∀ e ∈ elems, ∀ b ∈ e, b ≠ 0) → (∀ n ∈ names, NameOk n) → gixSelect env elems names = gitSelect env elems names
+
+-- non-vacuity of the end-to-end statement: `a/` and `:!a/b` over a/x, a/b/c, d — both sides select a/x
+example :
+    let env : C39.Env := ⟨fun _ _ _ _ => false, fun _ _ => none⟩
+    gixSelect env [[97, 47], [58, 33, 97, 47, 98]] [[97, 47, 120], [97, 47, 98, 47, 99], [100]] = some [true, false, false]
+      ∧ gitSelect env [[97, 47], [58, 33, 97, 47, 98]] [[97, 47, 120], [97, 47, 98, 47, 99], [100]] = some [true, false, false] := by
+  decide
 
 end GixModel.Props.C39
